@@ -145,6 +145,8 @@ func normFunc(kind string, universe []string) func(string, int) float32 {
 		idx[f] = i + 1
 	}
 	switch kind {
+	case "const":
+		return func(_ string, _ int) float32 { return 1.5 }
 	case "invsqrt":
 		return func(_ string, l int) float32 { return float32(1 / math.Sqrt(float64(l+1))) }
 	default: // "code": injective in (field, len) on the run's domain, strictly positive
